@@ -533,6 +533,17 @@ func c16Balance(rt *rapid.T, h *ev.History, v int64) {
 		accs = append(accs, u.ScriptHash().BytesBE())
 		w.c.Invoke(alpha, w.bal, "mint", u.ScriptHash(), int64(100*(i+1)), []byte("m"))
 	}
+	// accounts whose address starts with a byte the contracts use as a storage prefix ('a' = the
+	// new account prefix itself): prefix-sensitive migrations must not treat them specially
+	for _, first := range []byte{'a', 'a', 'x', 'o'} {
+		if rapid.Bool().Draw(rt, "prefixLikeAccount") {
+			var u util.Uint160
+			copy(u[:], []byte(fmt.Sprintf("%c-prefix-like-%06d", first, len(accs))))
+			accs = append(accs, u.BytesBE())
+			w.c.Invoke(alpha, w.bal, "mint", u, int64(77), []byte("p"))
+			h.Mark("account-starting-with-prefix-byte")
+		}
+	}
 	steps := rapid.IntRange(0, 8).Draw(rt, "steps")
 	for s := 0; s < steps; s++ {
 		from := rapid.SampledFrom(accs[:3]).Draw(rt, "from")
@@ -607,6 +618,16 @@ func c16Container(rt *rapid.T, h *ev.History, v int64) {
 				name = fmt.Sprintf("nm%d", s)
 			}
 			b := w.mkBlob(rapid.IntRange(0, 2).Draw(rt, "owner"), rapid.SampledFrom([]int{0, 3, 200}).Draw(rt, "off"), 500+s, name)
+			if want := rapid.SampledFrom([]byte{0, 0, 'x', 'o', 'd', 'm'}).Draw(rt, "cidFirstByte"); want != 0 {
+				// a container id that starts with one of the contract's own prefix bytes
+				for salt := 100000; salt < 140000; salt++ {
+					if c := w.mkBlob(b.owner, 0, salt, name); c.id[0] == want {
+						b = c
+						h.Mark("cid-starting-with-prefix-byte")
+						break
+					}
+				}
+			}
 			pub := w.owners[b.owner].Account().PublicKey().Bytes()
 			var o *chainkit.Outcome
 			if name != "" {
